@@ -265,14 +265,20 @@ func NewServer(setup func(h *server.Hertz), opts ...config.Option) *Server {
 	}
 	s := &Server{H: h, tr: tr, ReadBuf: 4096, runErr: make(chan error, 1)}
 	go func() { s.runErr <- h.Run() }()
-	select {
-	case <-tr.ready:
-	case err := <-s.runErr:
-		panic(fmt.Sprintf("sconn: engine did not start: %v", err))
-	case <-time.After(20 * time.Second):
-		panic("sconn: engine did not start in 20s")
+	// 120 separate one-second waits: a jump of the clock (a paused sandbox) ends at most one of them early
+	for i := 0; ; i++ {
+		select {
+		case <-tr.ready:
+			return s
+		case err := <-s.runErr:
+			panic(fmt.Sprintf("sconn: engine did not start: %v", err))
+		case <-time.After(time.Second):
+		}
+		if i >= 120 {
+			fmt.Println("VERIF-INCONCLUSIVE: sconn: engine did not start within 120 one-second waits")
+			os.Exit(2)
+		}
 	}
-	return s
 }
 
 // Result of serving one scripted connection.
